@@ -62,8 +62,11 @@ def build(events, results, regs):
         if op == "beginFn":
             fn = FnNode(c["name"], [p for p, _ in c["params"]])
             frames.append(fn)
-            for (pname, _), rv in zip(c["params"], real):
-                nodes.append(Node("param", {"name": pname}, fn=fn) if rv is not interp.DEAD else None)
+            for (pname, pann), rv in zip(c["params"], real):
+                # (a parameter of a literal class is, to the accessors of n-tuples and objects, a literal member: reading it
+                # back yields the member itself, not an accessor operation)
+                nodes.append(Node("param", {"name": pname, "literal_class": pann in ("Integer", "UnsignedInteger", "Boolean")}, fn=fn)
+                             if rv is not interp.DEAD else None)
             ri += n
             continue
         if op == "endFn":
@@ -136,7 +139,7 @@ def build(events, results, regs):
                 elif mem is not None:
                     j = i + len(mem) if i < 0 else i
                     m = mem[j]
-                    node = m if (m is not None and m.kind == "lit") else Node("NTupleAccessor", {"index": j}, [t],
+                    node = m if (m is not None and (m.kind == "lit" or m.f.get("literal_class"))) else Node("NTupleAccessor", {"index": j}, [t],
                                                                                 members=getattr(m, "members", None))
                 else:
                     node = Node("NTupleAccessor", {"index": None}, [t])
@@ -144,7 +147,7 @@ def build(events, results, regs):
                 o = g(c["o"])
                 mem = o.members if o is not None and isinstance(o.members, dict) else None
                 m = mem.get(c["key"]) if mem is not None else None
-                node = m if (m is not None and m.kind == "lit") else Node("ObjectAccessor", {"key": c["key"]}, [o],
+                node = m if (m is not None and (m.kind == "lit" or m.f.get("literal_class"))) else Node("ObjectAccessor", {"key": c["key"]}, [o],
                                                                           members=getattr(m, "members", None))
             elif op == "zip":
                 node = Node("Zip", {}, [g(c["a"]), g(c["b"])])
